@@ -46,6 +46,8 @@ def cell_text(v):
         return 'false'
     if isinstance(v, str):
         return v
+    if isinstance(v, int) and not (-2**63 <= v < 2**63):
+        v = float(v)          # a JSON integer beyond i64 is read as a double
     if isinstance(v, int):
         return str(v)
     if isinstance(v, float):
